@@ -505,10 +505,21 @@ class CtlRun(object):
         if form == 'single' and ch.chance(1, 10, 'noargs') and sim.gate('event-without-arguments'):
             first = ''
             sim.probe('event-without-arguments')
+        lead = ch.weighted([12, 1, 1], 'lead')
+        if lead and first:
+            # the payload itself begins with blanks ("650 NOTICE   indented message")
+            first = ' ' * lead + first
+            sim.probe('event-payload-leading-blank')
         more = []
         if form != 'single':
             for q in range(ch.weighted([2, 3, 2, 1], 'nmore')):
                 t = 'e%d.l%d' % (eid, q)
+                if q == 0 and not lead and ch.chance(1, 8, 'emptyfirst'):
+                    # nothing after the name on the first line: the payload begins with the line break
+                    first = ''
+                    sim.probe('event-first-line-only-name')
+                    more.append(t)
+                    continue
                 if ch.chance(1, 4, 'lookalike'):
                     t = ch.pick(['250 OK', '650 OK x', 'k=v', '', '552 no'], 'lk') + (' ' + t if ch.chance(1, 2, 'b') else '')
                 if form == 'multi' and t == '':
@@ -521,6 +532,9 @@ class CtlRun(object):
         payloads = {base}
         if form != 'single':
             payloads = {base, base + '\nOK'}
+            if first == '':
+                # name alone on the first line: the separator after the name (here the line break) may be consumed
+                payloads |= {base[1:], base[1:] + '\nOK'}
         ev = dict(eid=eid, name=name, form=form, payloads=payloads, end=self.peer.sent, inflight=None,
                   reply_index=self.peer.answered, noargs=(first == ''))
         self.events.append(ev)
@@ -532,9 +546,9 @@ class CtlRun(object):
     def on_event(self, l, payload):
         sim = self.sim
         eid = None
-        if payload.startswith('e'):
+        if payload.lstrip().startswith('e'):
             num = ''
-            for chh in payload[1:]:
+            for chh in payload.lstrip()[1:]:
                 if chh.isdigit():
                     num += chh
                 else:
